@@ -106,6 +106,18 @@ CLAIMED = {
          "runs and random tables beyond; the segment-merging heuristic itself is not specified.",
     technique="TLA+ format semantics checked by TLC; TLC-enumerated mappings replayed on the builder; trace validation of emitted tables and reader answers",
     design="4/C08"),
+ "C09": dict(
+    category="model_checking",
+    text="Glyf.tla is a decoder for simple and composite glyph descriptions and the location table written from the "
+         "OpenType specification, plus the length of the canonical shortest encoding; TLC enumerates boundary glyph "
+         "families; every glyph goes through GlyfLocaBuilder and the bytes it wrote are decoded and judged by the "
+         "specification (equal to the input, padded with at most one zero byte, never longer than canonical, loca "
+         "ascending / short format only when representable); read-fonts' readers are judged against the input, "
+         "from_bezpath glyphs are drawn unscaled through skrifa and compared with the input path.",
+    note="Trusted: TLC, the harness's JSON<->glyph conversion. Composite instructions are not reachable through the "
+         "public builder; tables beyond 4 KiB are judged on their loca only.",
+    technique="TLA+ glyf/loca decoder + canonical length; TLC-enumerated glyph families replayed on the builder; trace validation of emitted bytes",
+    design="4/C09"),
 }
 
 NOT_APPLICABLE = {
